@@ -542,7 +542,7 @@ impl<'a> Ctx<'a> {
                 card(CardBody::Repeat(Box::new(Repeat { i, n, body })))
             }
             7 => {
-                let mut o = |me: &mut Self, rng: &mut Rng| if rng.chance(1, 2) { Some(me.var_name(rng)) } else { None };
+                let o = |me: &mut Self, rng: &mut Rng| if rng.chance(1, 2) { Some(me.var_name(rng)) } else { None };
                 let (i, k, v) = (o(self, rng), o(self, rng), o(self, rng));
                 let iterable = Box::new(self.expr(rng, d));
                 let saved = self.scope.len();
@@ -862,7 +862,8 @@ pub fn gen_module_bounded(rng: &mut Rng, cfg: &GenCfg, stats: &mut GenStats) -> 
     loop {
         let mark = stats.classes.len();
         let m = gen_module(rng, cfg, stats);
-        if cfg.many_globals || potential_globals(&m) <= 16 {
+        let huge = stats.classes[mark..].iter().any(|c| c.starts_with("huge."));
+        if cfg.many_globals || huge || potential_globals(&m) <= 16 {
             return m;
         }
         stats.classes.truncate(mark);
